@@ -942,7 +942,7 @@ func (g *gen) mutGlobals() []GlobalInfo {
 	return r
 }
 
-var stmtKinds = []string{"localset", "localset", "globalset", "store", "store", "store", "call", "call", "callind", "if", "if", "block", "loop", "drop", "drop", "bulk", "table", "grow", "return", "unreachable", "nop", "vstore", "atomic", "wasi"}
+var stmtKinds = []string{"shift", "localset", "localset", "globalset", "store", "store", "store", "call", "call", "callind", "if", "if", "block", "loop", "drop", "drop", "bulk", "table", "grow", "return", "unreachable", "nop", "vstore", "atomic", "wasi"}
 
 func (g *gen) stmt() (terminated bool) {
 	d := g.cfg.MaxDepth
@@ -977,6 +977,50 @@ func (g *gen) stmt() (terminated bool) {
 		g.stat("reffunc-call")
 		g.f.emit("call_indirect", wasmenc.NewB().CallIndirect(typ, ti.Index).Bytes(), int64(typ), int64(ti.Index))
 		g.consumeAll(sg.R)
+	case "shift":
+		// a shift through locals of one type (a = b; b = c; c = new, in either order): inside a
+		// loop these become parallel copies between the loop header's parameters
+		ty := g.valType(false)
+		ls := g.localsOf(ty)
+		if len(ls) < 2 {
+			return false
+		}
+		n := 2
+		if len(ls) > 2 && g.chance(50, "shift3") {
+			n = 3
+		}
+		start := g.intn(len(ls), "shiftstart")
+		chain := make([]uint32, n)
+		for i := range chain {
+			chain[i] = ls[(start+i)%len(ls)]
+		}
+		if g.chance(50, "shiftrev") {
+			for i, j := 0, len(chain)-1; i < j; i, j = i+1, j-1 {
+				chain[i], chain[j] = chain[j], chain[i]
+			}
+		}
+		if g.sinkIdx >= 0 && g.chance(70, "shiftread") {
+			// read them first (newest first, or oldest first): all of them are live into the block,
+			// in that order
+			if g.chance(50, "shiftreadorder") {
+				for i := n - 1; i >= 0; i-- {
+					g.localGet(chain[i])
+					g.consume(ty)
+				}
+			} else {
+				for i := 0; i < n; i++ {
+					g.localGet(chain[i])
+					g.consume(ty)
+				}
+			}
+		}
+		for i := 0; i+1 < n; i++ {
+			g.localGet(chain[i+1])
+			g.localSet(chain[i])
+		}
+		g.expr(ty, 2)
+		g.localSet(chain[n-1])
+		g.stat("shift")
 	case "localset":
 		if len(g.f.locals) == 0 {
 			return false
